@@ -19,6 +19,7 @@
 #define _GNU_SOURCE
 #include <stdlib.h>
 #include <string.h>
+#include <sys/stat.h>
 #include "kv.h"
 
 int ldb_copy(const char *from, const char *to, const ldb_dbopt_t *options);
@@ -412,43 +413,95 @@ backup_states(int len) {
 
 /* ---------------- destroy / comparator ---------------- */
 
+/* destroy variants: 0 = foreign entries only; 1 = + the database's own LOG / LOG.old and a lost/ directory
+ * left by a repair holding own-named and foreign files; 2 = lost/ is itself a database (has CURRENT): not
+ * this database's files; 3 = nothing foreign: the directory itself goes away; 4 = the directory does not exist */
+static int destroy_variant;
+
+static int
+expect_dir(res_t *r, const char *dir, const char **want, int nw, int rc, const char *what) {
+  char names[64][64];
+  char m[400];
+  int n = vfs_list(vfs_cur, dir, names, 64), i, bad = (n != nw), p;
+  for (i = 0; i < n && i < nw && !bad; i++)
+    if (strcmp(names[i], want[i]) != 0) bad = 1;
+  if (!bad)
+    return 1;
+  p = snprintf(m, sizeof(m), "variant %d: after ldb_destroy (status %d) %s holds:", destroy_variant, rc, what);
+  for (i = 0; i < n && p < 300; i++) p += snprintf(m + p, sizeof(m) - (size_t)p, " %s", names[i]);
+  p += snprintf(m + p, sizeof(m) - (size_t)p, " ; expected exactly:");
+  for (i = 0; i < nw && p < 380; i++) p += snprintf(m + p, sizeof(m) - (size_t)p, " %s", want[i]);
+  rfail(r, "destroy-wrong-file-set", m);
+  return 0;
+}
+
 static void
 destroy_body(void *arg) {
   res_t *r = arg;
   khist_t h;
   kop_t ops[MAXOPS];
-  int n, i, rc;
-  char names[64][64];
-  char m[300];
+  int n, i, rc, V = destroy_variant;
   r->ok = 1;
   kh_init(&h, &cfg, DB);
+  if (V == 4) {
+    rc = ldb_destroy(DB, &h.o.opt);
+    if (rc != LDB_OK) rfail(r, "destroy-status", "ldb_destroy of a directory that does not exist reports an error");
+    kh_clear(&h);
+    return;
+  }
   if (kh_open(&h) != LDB_OK) { rfail(r, "open-failed", "open failed"); kh_clear(&h); return; }
   n = khist_parse(ops, MAXOPS, "P0.1 F P0.1 F P1.2 P1.2 P1.2 P1.2 P2.1");
   for (i = 0; i < n; i++) kh_apply(&h, &ops[i]);
   kh_close(&h);
-  /* foreign entries: ordinary files, names that only resemble database files, a sub-directory */
-  vfs_put_file(vfs_cur, "/vfs/db/notes.txt", "keep", 4);
-  vfs_put_file(vfs_cur, "/vfs/db/000001.bak", "keep", 4);
-  vfs_put_file(vfs_cur, "/vfs/db/MANIFEST", "keep", 4);
-  vfs_put_file(vfs_cur, "/vfs/db/CURRENT.old", "keep", 4);
-  vfs_put_file(vfs_cur, "/vfs/db/12x.log", "keep", 4);
-  mkdir("/vfs/db/sub", 0755);
-  vfs_put_file(vfs_cur, "/vfs/db/sub/000005.ldb", "keep", 4);
+  if (V <= 2) {
+    /* foreign entries: ordinary files, names that only resemble database files, a sub-directory */
+    vfs_put_file(vfs_cur, "/vfs/db/notes.txt", "keep", 4);
+    vfs_put_file(vfs_cur, "/vfs/db/000001.bak", "keep", 4);
+    vfs_put_file(vfs_cur, "/vfs/db/MANIFEST", "keep", 4);
+    vfs_put_file(vfs_cur, "/vfs/db/CURRENT.old", "keep", 4);
+    vfs_put_file(vfs_cur, "/vfs/db/12x.log", "keep", 4);
+    mkdir("/vfs/db/sub", 0755);
+    vfs_put_file(vfs_cur, "/vfs/db/sub/000005.ldb", "keep", 4);
+  }
+  if (V >= 1 && V <= 3) {
+    vfs_put_file(vfs_cur, "/vfs/db/LOG", "info", 4);
+    vfs_put_file(vfs_cur, "/vfs/db/LOG.old", "info", 4);
+    mkdir("/vfs/db/lost", 0755);
+    vfs_put_file(vfs_cur, "/vfs/db/lost/000007.ldb", "x", 1);
+    vfs_put_file(vfs_cur, "/vfs/db/lost/000009.log", "x", 1);
+    vfs_put_file(vfs_cur, "/vfs/db/lost/MANIFEST-000004", "x", 1);
+    if (V != 3)
+      vfs_put_file(vfs_cur, "/vfs/db/lost/readme", "keep", 4);
+    if (V == 2)
+      vfs_put_file(vfs_cur, "/vfs/db/lost/CURRENT", "MANIFEST-000004\n", 16);
+  }
   rc = ldb_destroy(DB, &h.o.opt);
-  n = vfs_list(vfs_cur, DB, names, 64);
-  {
+  if (V == 0) {
     static const char *want[] = {"000001.bak", "12x.log", "CURRENT.old", "MANIFEST", "notes.txt", "sub"};
-    int nw = 6, bad = (n != nw);
-    for (i = 0; i < n && i < nw && !bad; i++)
-      if (strcmp(names[i], want[i]) != 0) bad = 1;
-    if (bad) {
-      int p = snprintf(m, sizeof(m), "after ldb_destroy (status %d) the directory holds:", rc);
-      for (i = 0; i < n && p < 250; i++) p += snprintf(m + p, sizeof(m) - (size_t)p, " %s", names[i]);
-      snprintf(m + p, sizeof(m) - (size_t)p, " ; expected exactly the 6 foreign entries");
-      rfail(r, "destroy-wrong-file-set", m);
+    expect_dir(r, DB, want, 6, rc, "the directory");
+  } else if (V == 1) {
+    static const char *want[] = {"000001.bak", "12x.log", "CURRENT.old", "MANIFEST", "lost", "notes.txt", "sub"};
+    static const char *wantl[] = {"readme"};
+    if (expect_dir(r, DB, want, 7, rc, "the directory"))
+      expect_dir(r, "/vfs/db/lost", wantl, 1, rc, "lost/");
+  } else if (V == 2) {
+    static const char *want[] = {"000001.bak", "12x.log", "CURRENT.old", "MANIFEST", "lost", "notes.txt", "sub"};
+    static const char *wantl[] = {"000007.ldb", "000009.log", "CURRENT", "MANIFEST-000004", "readme"};
+    if (expect_dir(r, DB, want, 7, rc, "the directory"))
+      expect_dir(r, "/vfs/db/lost", wantl, 5, rc, "lost/ (a database of its own: it has a CURRENT)");
+  } else if (V == 3) {
+    if (vfs_lookup(vfs_cur, DB) >= 0) {
+      static const char *none[] = {""};
+      expect_dir(r, DB, none, 0, rc, "the directory (which should be gone: nothing foreign was in it)");
+      if (r->ok) rfail(r, "destroy-wrong-file-set", "variant 3: the emptied database directory was not removed");
     }
-    if (r->ok && vfs_lookup(vfs_cur, "/vfs/db/sub/000005.ldb") < 0)
-      rfail(r, "destroy-wrong-file-set", "ldb_destroy removed a file inside a foreign sub-directory");
+  }
+  if (r->ok && V <= 2 && vfs_lookup(vfs_cur, "/vfs/db/sub/000005.ldb") < 0)
+    rfail(r, "destroy-wrong-file-set", "ldb_destroy removed a file inside a foreign sub-directory");
+  if (r->ok && rc != LDB_OK) {
+    char m[100];
+    snprintf(m, sizeof(m), "variant %d: ldb_destroy returned %d although every own file could be removed", V, rc);
+    rfail(r, "destroy-status", m);
   }
   kh_clear(&h);
 }
@@ -544,8 +597,15 @@ main(int argc, char **argv) {
       n = khist_parse(ops, MAXOPS, hb);
       if (n < 0) vh_die("bad history");
       run_backup(ops, n, st);
-    } else if (strstr(drv.replay, "destroy")) run_simple(destroy_body, "destroy");
-    else run_simple(cmp_body, "cmp");
+    } else if (strstr(drv.replay, "destroy")) {
+      const char *pv = strstr(drv.replay, "destroy");
+      destroy_variant = (pv[7] >= '0' && pv[7] <= '4') ? pv[7] - '0' : 0;
+      {
+        char nm[16];
+        snprintf(nm, sizeof(nm), "destroy%d", destroy_variant);
+        run_simple(destroy_body, nm);
+      }
+    } else run_simple(cmp_body, "cmp");
     if (!drv_nviol()) printf("REPLAY-OK\n");
     drv_result("\"evaluations\":1");
     return 0;
@@ -556,7 +616,10 @@ main(int argc, char **argv) {
     if (!kcfg_parse(&cfg, item)) vh_die("bad cfg");
     if (strstr(parts, "lock")) lock_sequences(locklen);
     if (strstr(parts, "backup")) backup_states(blen);
-    if (strstr(parts, "destroy") && drv.shard == 0) { run_simple(destroy_body, "destroy"); n_destroy++; }
+    if (strstr(parts, "destroy") && drv.shard == 0) {
+      static const char *dn[] = {"destroy0", "destroy1", "destroy2", "destroy3", "destroy4"};
+      for (destroy_variant = 0; destroy_variant < 5; destroy_variant++) { run_simple(destroy_body, dn[destroy_variant]); n_destroy++; }
+    }
     if (strstr(parts, "cmp") && drv.shard == 0) { run_simple(cmp_body, "cmp"); n_cmp++; }
     drv_note("cfg %s: lock sequences <= %d over 6 steps; backup/copy after every history <= %d over %d ops (drained and with the last op's background work pending) + 3 scripted layouts; destroy with 6 foreign entries; refused opens", item, locklen, blen, nbalpha);
   }
